@@ -903,6 +903,46 @@ func scenarios() []scenario {
 			}
 			return fs
 		}},
+		{name: "S13-client-stops-reading-mid-request-vs-other-sessions", body: func() {
+			// As in the Modify handler the result channel is unbuffered. Session a's stream writer takes the first
+			// result and then fails (the client has gone): the goroutine that applies a's request stays blocked on its
+			// next result for ever - a leaked goroutine, harmless by itself. Nothing it holds may keep OTHER sessions
+			// from being served: session b announces, programs, and the epilogue's fresh session does the same.
+			s := newServer()
+			primary(s, "a", one)
+			if err := negotiate(s, "b"); err != nil {
+				panic(err)
+			}
+			two := ID{Lo: 2}
+			resCh := make(chan *spb.ModifyResponse)
+			errCh := make(chan error)
+			rt.Go("session-a-apply", func() {
+				s.VerifDoModify("a", []*spb.AFTOperation{stamped(1, D, spb.AFTOperation_ADD, nh1, one), stamped(2, D, spb.AFTOperation_ADD, nh2, one), stamped(3, D, spb.AFTOperation_ADD, g1, one)}, resCh, errCh)
+			})
+			rt.Go("session-a-stream-writer", func() { rt.Recv(resCh) })
+			var wg vsync.WaitGroup
+			wg.Add(1)
+			rt.Go("session-b", func() {
+				defer wg.Done()
+				if _, err := s.VerifRunElection("b", two.Proto()); err != nil {
+					rt.Emit("election-error", err.Error())
+				}
+				rt.Emit("acked-by-b", len(doModifyAcked(s, "b", stamped(1, D, spb.AFTOperation_ADD, ribx.NHEntry(5, "5.5.5.5"), two))))
+			})
+			wg.Wait()
+			afterwards(s)
+		}, check: func(x *rt.Exec) []mc.Fail {
+			fs := basic(x)
+			for _, e := range x.Events {
+				if e.Label == "acked-by-b" && e.Val.(int) != 1 {
+					fs = append(fs, mc.Fail{Sig: "C11/request-not-answered", What: "session b's operation was not acknowledged while session a's request was stuck behind a client that stopped reading"})
+				}
+				if e.Label == "election-error" {
+					fs = append(fs, mc.Fail{Sig: "C11/election-failed-under-concurrency", What: e.Val.(string)})
+				}
+			}
+			return fs
+		}},
 		{name: "S7-add-network-instance-vs-get-flush", body: func() {
 			s := newServer()
 			stub := wire.New(s)
